@@ -72,20 +72,28 @@ class _Timeout(Exception):
     pass
 
 
+_fired = [False]
+
+
 def _alarm(signum, frame):
+    _fired[0] = True
     raise _Timeout()
 
 
 def call_with_timeout(thunk, seconds=3):
+    """The outcome of thunk() as a Coq `res cval` term; a run cut off by the alarm is RFuel, whatever exception
+    the interrupted code turned the interruption into."""
     old = signal.signal(signal.SIGALRM, _alarm)
+    _fired[0] = False
     signal.alarm(seconds)
     try:
-        return res_of_call(thunk)
+        out = res_of_call(thunk)
     except _Timeout:
-        return 'RFuel'
+        out = 'RFuel'
     finally:
         signal.alarm(0)
         signal.signal(signal.SIGALRM, old)
+    return 'RFuel' if _fired[0] else out
 
 
 # ---------------------------------------------------------------- Coq terms of configurations
